@@ -365,6 +365,35 @@ def build_matrix_builder(kind: str, container: Optional[str] = None) -> LayerBui
                                            (bytes([0x31, k, 8]) + tail[:2]).hex(), (bytes([0x31, k, 16]) + tail).hex()]
                 b.examples[f"rs_pl{k}"] = [bytes([0x71, k, 0, 0x55]).hex(), (bytes([0x71, k, 8]) + tail).hex()]
                 k += 1
+    elif kind == "consts":
+        # wide RESERVED blocks (more than 64 bits) in the middle and at the end; CODED-CONST parameters of
+        # byte-field, text and float type after a non-constant parameter (where the service prefix does not
+        # protect them from mismatching bytes)
+        for bits, where in ((80, "end"), (80, "mid"), (72, "end"), (128, "end"), (64, "end"), (16, "mid")):
+            rq_params = [b.value("v", u8)]
+            if where == "end":
+                rq_params.append(b.reserved("res", bits))
+            else:
+                rq_params += [b.reserved("res", bits), b.value("post", u8)]
+            _svc2(b, k, f"rv{k}", rq_params, [b.value("pre", u8), b.reserved("res", bits), b.value("post", u8)])
+            n = bits // 8
+            b.examples[f"rq_rv{k}"] = [(bytes([0x31, k, 5]) + bytes(n) + (b"\x09" if where == "mid" else b"")).hex()]
+            b.examples[f"rs_rv{k}"] = [(bytes([0x71, k, 5]) + bytes(n) + b"\x09").hex()]
+            k += 1
+        import struct
+        for base, bits, value, raw in (("A_BYTEFIELD", 16, bytearray(b"\xfe\x01"), b"\xfe\x01"),
+                                       ("A_BYTEFIELD", 8, bytes(b"\xfe"), b"\xfe"),
+                                       ("A_ASCIISTRING", 16, "OK", b"OK"),
+                                       ("A_FLOAT32", 32, 1.5, struct.pack(">f", 1.5)),
+                                       ("A_FLOAT64", 64, -2.25, struct.pack(">d", -2.25)),
+                                       ("A_INT32", 16, -2, b"\xff\xfe"),
+                                       ("A_UTF8STRING", 24, "abc", b"abc")):
+            cc = b.coded_const("tail", value, dct=b.slt(base, bits))
+            cc2 = b.coded_const("mid", value, dct=b.slt(base, bits))
+            _svc2(b, k, f"cc{k}", [b.value("v", u8), cc], [b.value("v", u8), cc2, b.value("post", u8)])
+            b.examples[f"rq_cc{k}"] = [(bytes([0x31, k, 5]) + raw).hex()]
+            b.examples[f"rs_cc{k}"] = [(bytes([0x71, k, 5]) + raw + b"\x09").hex()]
+            k += 1
     elif kind == "ambig":
         # services whose coding objects cannot be told apart by their constant parts: two positive responses of the
         # same shape, negative responses that differ only in (overlapping) NRC lists and in length
@@ -429,7 +458,7 @@ def build_matrix_builder(kind: str, container: Optional[str] = None) -> LayerBui
     return b
 
 
-MATRIX_KINDS = ["minmax", "leading", "strings", "ints", "structs", "lengths", "ambig", "compu"]
+MATRIX_KINDS = ["minmax", "leading", "strings", "ints", "structs", "lengths", "ambig", "compu", "consts"]
 
 
 def build_matrix_layer(kind: str):
